@@ -26,11 +26,13 @@ RULE = (
     "label value, an unlisted label or id 0; distinct by (mode, collision pattern, has0, #unlisted)."
 )
 ASSUMPTIONS = ["seg ids are positive; every listed (time, seg id) occurs in the image",
+               "node ids <= ~10**6 (skimage.regionprops allocates per label value; ids near 2**31 exhaust memory)",
                "dtype of the relabelled array is unconstrained"]
 REQUIRED_CLASSES = {t: ["c13:id0", "c13:unlisted", "c13:collision", "c13:reused_label", "c13:identity",
+                        "c13:ids_exceed_label_dtype",
                         "part:from_df"] for t in ("quick", "thorough")}
 
-POOL = [1, 2, 3, 4, 5, 6, 9, 300]
+POOL = [1, 2, 3, 4, 5, 6, 9, 200]
 
 
 @st.composite
@@ -69,7 +71,9 @@ def inputs(draw, with_df=False):
         ids = draw(st.lists(st.sampled_from(cand), min_size=n, max_size=n, unique=True))
         mode = "collide"
     else:
-        ids = draw(st.lists(st.integers(400, 450), min_size=n, max_size=n, unique=True))
+        # ids far above the label values - also above what a narrow label dtype can hold
+        base = draw(st.sampled_from([400, 400, 65600, 1_000_000]))
+        ids = draw(st.lists(st.integers(base, base + 50), min_size=n, max_size=n, unique=True))
     ids = list(ids)
     if ids and draw(st.integers(0, 3)) == 0 and 0 not in ids:
         ids[draw(st.integers(0, n - 1))] = 0
@@ -85,7 +89,7 @@ def inputs(draw, with_df=False):
     for m in nodes:
         m.pop("children")
     out = {"spatial": list(spatial), "frames": frames, "nodes": nodes, "mode": mode,
-           "dtype": draw(st.sampled_from(["int32", "uint16", "int64", "uint64"])),
+           "dtype": draw(st.sampled_from(["int32", "uint16", "int64", "uint64", "uint8"])),
            "dask": draw(st.booleans())}
     if with_df:
         out["with_pos"] = draw(st.booleans())
@@ -138,6 +142,8 @@ def _classify(res, inp, src):
         res.tags.append("c13:reused_label")
     if inp["mode"] == "identity":
         res.tags.append("c13:identity")
+    if inp["dtype"] in ("uint8", "uint16") and any(n["id"] > np.iinfo(inp["dtype"]).max for n in nodes):
+        res.tags.append("c13:ids_exceed_label_dtype")
     if has0 or unlisted or collision or reused:
         res.nontrivial = (inp["mode"], collision, reused, has0, min(len(unlisted), 3), len(nodes), len(inp["spatial"]))
 
